@@ -8,19 +8,21 @@ Open Scope Z_scope.
 
 (* One poll of Tuner._update_running_trials (any statuses with unique trial ids, any new results with
    any scheduler decisions, any trials_scheduler_stopped): on_trial_error is called exactly once for a
-   trial whose status is failed, or stopped without the scheduler having asked for it, and never
-   otherwise; such a trial is in done_trials afterwards, i.e. it leaves the running set and is not
-   polled again for this run. *)
+   trial whose status is failed and that the scheduler has not itself stopped or paused for a result of
+   the same batch (then it was told by on_trial_remove; current tuner.py, commit dbe6ca2), or whose
+   status is stopped without the scheduler having asked for it — and never otherwise, never twice;
+   such a trial is in done_trials afterwards, i.e. it leaves the running set and is not polled again
+   for this run. *)
 Theorem c13_notified_once :
   forall statuses results ss t, NoDup (map fst statuses) ->
     let ps0 := results_loop statuses results {| done := []; sched_stopped := ss; calls := [] |} in
     count_error t (calls (update_running_trials statuses results ss)) =
-      (if ended_badly statuses (sched_stopped ps0) t then 1%nat else 0%nat) /\
-    (ended_badly statuses (sched_stopped ps0) t = true ->
+      (if ended_badly statuses ps0 t then 1%nat else 0%nat) /\
+    (ended_badly statuses ps0 t = true ->
        lookup t (done (update_running_trials statuses results ss)) <> None).
 Proof.
   intros statuses results ss t H. split; [exact (notified_once statuses results ss t H)|].
-  intro Hb. exact (status_loop_done t statuses _ Hb).
+  intro Hb. exact (status_loop_done t statuses _ H Hb).
 Qed.
 Print Assumptions c13_notified_once.
 
